@@ -9,7 +9,7 @@ CONSTANTS Depth, RootKinds
 A == Leaf("a")  Bv == Leaf("b")  Cv == Leaf("c")
 Leaves == {A, Bv, Cv}
 Reps == {Bin("||", A, Bv), Bin("&&", A, Bv), Bin("==", A, Bv), Bin("+", A, Bv), Bin("*", A, Bv), Bin("in", A, Cv), Un("-", A), Un("!", A), Un("^", A), Un("&", A), Un("*", A),
-         Tern(A, Bv, Cv), Nilco(A, Bv), Idx(Cv, A), Member(A, "m"), CallE(A, Bv), Slice(Cv, A, Bv)}
+         Tern(A, Bv, Cv), Nilco(A, Bv), Idx(Cv, A), Member(A, "m"), CallE(A, Bv), Slice(Cv, A, Bv), Slice3(Cv, A, Bv, A)}
 Kids == Leaves \cup Reps
 Over(K) ==   {Bin(op, l, r) : op \in BinOps, l \in K, r \in K}
         \cup {Un(op, e) : op \in UnOps, e \in K}
@@ -19,6 +19,8 @@ Over(K) ==   {Bin(op, l, r) : op \in BinOps, l \in K, r \in K}
         \cup {Member(e, "m") : e \in K}
         \cup {CallE(e, x) : e \in K, x \in K}
         \cup {Slice(e, lo, hi) : e \in K, lo \in {A} \cup Reps, hi \in {Bv}}
+        \cup {Slice3(e, A, Bv, c) : e \in K, c \in {Cv} \cup Reps} \cup {Slice3(e, lo, hi, Cv) : e \in {Cv, Member(A, "m"), Idx(Cv, A)}, lo \in Reps, hi \in Reps}
+        \cup {SliceLo(e, lo) : e \in K, lo \in K} \cup {SliceHi(e, hi) : e \in K, hi \in K}
 \* every binary operator under / over every binary and unary operator (precedence and associativity pairwise)
 Pairs ==   {Bin(o1, Bin(o2, A, Bv), Cv) : o1 \in BinOps, o2 \in BinOps} \cup {Bin(o1, A, Bin(o2, Bv, Cv)) : o1 \in BinOps, o2 \in BinOps}
       \cup {Un(u, Bin(o, A, Bv)) : u \in UnOps, o \in BinOps} \cup {Bin(o, Un(u, A), Bv) : u \in UnOps, o \in BinOps} \cup {Bin(o, A, Un(u, Bv)) : u \in UnOps, o \in BinOps}
